@@ -246,7 +246,7 @@ func checkC19(w *World, r *Report) {
 				t = p.Elem()
 			}
 			n, ok := t.(*types.Named)
-			return ok && n.Obj().Name() == "Identity" && n.Obj().Pkg() != nil && n.Obj().Pkg().Name() == "schema"
+			return ok && nm(n.Obj()) == "Identity" && n.Obj().Pkg() != nil && nm(n.Obj().Pkg()) == "schema"
 		}
 		fieldLoad := func(v ssa.Value) string {
 			u, ok := v.(*ssa.UnOp)
@@ -592,7 +592,7 @@ func bracketBalances(p *packagesPackage, stmts []ast.Stmt) []int {
 		case *ast.ExprStmt:
 			if ce, ok := x.X.(*ast.CallExpr); ok {
 				if c := calleeOf(p, ce); c != nil && len(ce.Args) == 1 {
-					switch c.Name() {
+					switch nm(c) {
 					case "WriteByte":
 						if v, ok := ConstInt(p, ce.Args[0]); ok {
 							switch v {
